@@ -397,6 +397,24 @@ func tokenPart(c *vk.Ctx) {
 		if code := probe(mk(now.Add(-time.Hour), now.Add(time.Hour))); code != 200 {
 			bad("crafted-valid-token-rejected (VERIF-HARNESS self-test)", fmt.Sprint(code))
 		}
+		// histories: a token presented while valid and again after it expired (and one that is
+		// first seen after expiry) — acceptance must not be remembered
+		exp := time.Now().Truncate(time.Second).Add(2 * time.Second)
+		used, unused := mk(now.Add(-time.Hour), exp), mk(now.Add(-2*time.Hour), exp)
+		n += 4
+		if code := probe(used); code != 200 {
+			bad("short-lived-token-rejected-while-valid (VERIF-HARNESS self-test)", fmt.Sprint(code))
+		}
+		if code := probe(used); code != 200 {
+			bad("short-lived-token-rejected-while-valid (VERIF-HARNESS self-test)", fmt.Sprint(code))
+		}
+		time.Sleep(time.Until(exp) + 1200*time.Millisecond)
+		if code := probe(used); code != 401 {
+			bad("token-accepted-after-expiry-when-seen-before", fmt.Sprint(code))
+		}
+		if code := probe(unused); code != 401 {
+			bad("expired-token-accepted", fmt.Sprint(code))
+		}
 	}
 	// revoked
 	w := v.Do("DELETE", "/auth/keys/"+v.Jtis["w"], srvx.Root, nil, 3*time.Second)
